@@ -301,6 +301,8 @@ class Analyser:
 
     # ------------------------------------------------------------- sinks
     def sink(self, node, kind, ok, why):
+        if not ok:
+            self.unsafe_events = getattr(self, 'unsafe_events', 0) + 1
         if not self.record:
             return
         self_cls, def_cls, fname = self.cur[-1]
@@ -997,6 +999,11 @@ class Analyser:
                             if not cur.empty and cur.hi == other.lo and not cur.hi_open:
                                 s.val[x] = Itv(cur.lo, cur.hi, cur.lo_open, True, cur.nan, cur.isint).norm()
             s.rel.add(a, eff, b)
+            # a comparison of a difference with zero is a comparison of its operands: (x - y) > 0  =>  x > y
+            for (u, other, e2) in ((a, s.iv(b), eff), (b, s.iv(a), {'<': '>', '<=': '>=', '>': '<', '>=': '<=', '==': '==', '!=': '!='}[eff])):
+                du = s.defs.get(u)
+                if du and du[0] == 'sub' and other.is_point() and other.lo == 0.0:
+                    s.rel.add(du[1], e2, du[2])
             if (s.iv(a).is_bottom() and not s.iv(a).nan) or (s.iv(b).is_bottom() and not s.iv(b).nan):
                 if not keepnan:
                     return []
@@ -1198,9 +1205,17 @@ class Analyser:
         saved = self.record
         if caught & {'*', 'Exception', 'ZeroDivisionError', 'ValueError', 'ArithmeticError', 'BaseException'}:
             self.record = False
+        before = getattr(self, 'unsafe_events', 0)
         f = self.block([st.fork()], node.body)
         self.record = saved
+        raised = getattr(self, 'unsafe_events', 0) > before
+        ARITH = {'ZeroDivisionError', 'ValueError', 'ArithmeticError', 'OverflowError', 'FloatingPointError'}
         for h in node.handlers:
+            names = set()
+            if h.type is not None:
+                names = {ast.unparse(x) for x in (h.type.elts if isinstance(h.type, ast.Tuple) else [h.type])}
+            if names and names <= ARITH and not raised:
+                continue            # no arithmetic sink in the body can fail in this state: the handler is unreachable
             hf = self.block([st.fork()], h.body)
             f.normal += hf.normal; f.returns += hf.returns
         if node.finalbody:
